@@ -2,7 +2,9 @@
 Line-protocol driver for the persistence view of the engine model (C07, C08).
 The engine protocol of Driver/Engine.lean (parsers copied from there), extended with
   cfg …                   → "cfg"         (implementation-side configuration, ignored by the model)
-  restart                 → "restarted"   (clean shutdown + a new engine on the same store)
+  restart                 → "restarted N" (clean shutdown + a new engine on the same store; N = number of
+                                           logical write batches that have reached the store so far)
+  shutdown                → "shutdown N"  (the same at the end of a history)
   crash L                 → "crashed T"   (the process died when exactly L logical write batches of the
                                            history run so far had reached the store; a new engine is
                                            opened on that store; T = the timestamp it finds, `none` on
@@ -131,7 +133,8 @@ def step (t : Toggles) (d : DS) (toks : List String) : DS × String :=
       | (.ok vs, ps) => ({ d with ps := ps }, " ".intercalate (vs.map toString) ++ " |" ++ execsStr d.unordered ps.st.log
           ++ flags ps ++ (if ps.st.choicePoints > 0 then " ~" else ""))
       | (.error e, ps) => (d, showErr e ++ (if ps.st.choicePoints > 0 then " ~" else ""))
-  | ["restart"] => ({ d with ps := restartP d.ps }, "restarted")
+  | ["restart"] => ({ d with ps := restartP d.ps }, s!"restarted {d.ps.trace.length}")
+  | ["shutdown"] => ({ d with ps := restartP d.ps }, s!"shutdown {d.ps.trace.length}")
   | ["crash", l] =>
     match l.toNat? with
     | none => (d, "bad-op")
